@@ -95,13 +95,18 @@ NewIter == Is("newiter") /\ ~Has(Ev.h) /\ (Ev.src = 0 \/ Has(Ev.src))
                          free |-> (Taint(Ev.src) # {}),
                          it |-> NewIt(View(Ev.src), Ev.lo, Ev.hi, Ev.mask, Ev.kt)])
            /\ UNCHANGED <<cur, cv>>
-IterOp == Is("iter") /\ Has(Ev.h) /\ hs[Ev.h].t = "iter"
+IterOp == Is("iter") /\ Has(Ev.h) /\ hs[Ev.h].t = "iter" /\ Ev.o \notin LimOps
           /\ LET r == IterStep(hs[Ev.h].it, Ev.o, Ev.k) IN
                /\ ((Chk(hs[Ev.h].cls) /\ ~hs[Ev.h].free) => (Ev.err = r.err /\ ResMatch(Ev.res, r.res)))
                /\ Put(Ev.h, [hs[Ev.h] EXCEPT !.it = r.it])
           /\ UNCHANGED <<cur, cv>>
+IterLimOp == Is("iter") /\ Has(Ev.h) /\ hs[Ev.h].t = "iter" /\ Ev.o \in LimOps
+          /\ LET r == IterStepLim(hs[Ev.h].it, Ev.o, Ev.k, Ev.lim, Ev.st, Ev.res, Ev.err) IN
+               /\ ((Chk(hs[Ev.h].cls) /\ ~hs[Ev.h].free) => r.ok)
+               /\ Put(Ev.h, [hs[Ev.h] EXCEPT !.it = r.it])
+          /\ UNCHANGED <<cur, cv>>
 SetBounds == Is("setbounds") /\ Has(Ev.h) /\ hs[Ev.h].t = "iter"
-             /\ Put(Ev.h, [hs[Ev.h] EXCEPT !.it.lo = Ev.lo, !.it.hi = Ev.hi, !.it.pos = -2, !.it.pfx = -1, !.it.err = FALSE])
+             /\ Put(Ev.h, [hs[Ev.h] EXCEPT !.it.lo = Ev.lo, !.it.hi = Ev.hi, !.it.pos = -2, !.it.pfx = -1, !.it.err = FALSE, !.it.pa = ""])
              /\ UNCHANGED <<cur, cv>>
 (* SetOptions: new bounds/mask/key types; an indexed-batch iterator also refreshes its batch view *)
 Refreshed(ih) == IF ih.src # 0 /\ Has(ih.src) /\ hs[ih.src].t = "batch"
@@ -224,7 +229,7 @@ Note == Is("note") /\ UNCHANGED <<cur, hs, cv>>
 
 TraceNext == \/ Reset \/ Commit \/ Ingest \/ IngestExcise \/ Excise \/ BatchCommit \/ DurablePoint \/ SyncWait \/ Maint
              \/ Snap \/ Efos \/ BatchNew \/ BatchOp \/ Close \/ Get \/ Scan \/ FGet \/ FScan
-             \/ NewIter \/ IterOp \/ SetBounds \/ SetOpts \/ CloneIt
+             \/ NewIter \/ IterOp \/ IterLimOp \/ SetBounds \/ SetOpts \/ CloneIt
              \/ CrashProbe \/ Reopen \/ DurRead \/ Lsm \/ Pin \/ Unpin \/ Removed \/ DirList \/ CleanReopen \/ CloseDB \/ Checkpoint \/ ScanInt \/ Ratchet \/ Note
 TraceSpec == TraceInit /\ [][TraceNext]_vars
 
